@@ -607,6 +607,101 @@ def deselect_module(tree):
     return n
 
 
+# ---------------------------------------------------------------------------
+# new helpers living in another module of the package
+# ---------------------------------------------------------------------------
+PKG_NAME = "jsonrpclib"
+
+
+def _module_aliases(tree):
+    """local name -> package module it denotes (import jsonrpclib.utils as utils / from jsonrpclib import utils)"""
+    out = {}
+    for st in ast.walk(tree):
+        if isinstance(st, ast.Import):
+            for al in st.names:
+                parts = al.name.split(".")
+                if parts[0] == PKG_NAME and len(parts) == 2 and al.asname:
+                    out[al.asname] = parts[1]
+        elif isinstance(st, ast.ImportFrom) and st.module == PKG_NAME and st.level == 0:
+            for al in st.names:
+                out[al.asname or al.name] = al.name
+    return out
+
+
+def _top_level_bindings(tree):
+    """names bound at module level by def / class / assignment (not by import)"""
+    out = set()
+    stack = list(tree.body)
+    while stack:
+        st = stack.pop()
+        if isinstance(st, (ast.FunctionDef, ast.ClassDef)):
+            out.add(st.name)
+        elif isinstance(st, ast.Assign):
+            for t in st.targets:
+                for n in ast.walk(t):
+                    if isinstance(n, ast.Name):
+                        out.add(n.id)
+        elif isinstance(st, (ast.If, ast.Try)):
+            stack.extend(st.body)
+            stack.extend(st.orelse)
+            if isinstance(st, ast.Try):
+                for h in st.handlers:
+                    stack.extend(h.body)
+    return out
+
+
+class _Qualify(ast.NodeTransformer):
+    def __init__(self, names, alias, local):
+        self.names, self.alias, self.local = names, alias, local
+
+    def visit_Name(self, node):
+        if isinstance(node.ctx, ast.Load) and node.id in self.names and node.id not in self.local:
+            return ast.copy_location(ast.Attribute(value=ast.Name(id=self.alias, ctx=ast.Load()), attr=node.id, ctx=ast.Load()), node)
+        return node
+
+
+def import_foreign_helpers(trees):
+    """A call `alias.h(...)` of a *new* module-level function h of another package module gets a private copy of h in the
+    calling module (its references to its own module's globals qualified with the alias), so that the same-module helper
+    expansion applies to it.  -> {caller module: [copied helper names]}"""
+    known = known_functions()
+    done = {}
+    for mname, tree in trees.items():
+        aliases = _module_aliases(tree)
+        if not aliases:
+            continue
+        copies = {}
+        for call in [n for n in ast.walk(tree) if isinstance(n, ast.Call)]:
+            f = call.func
+            if not (isinstance(f, ast.Attribute) and isinstance(f.value, ast.Name) and f.value.id in aliases):
+                continue
+            src_mod = aliases[f.value.id]
+            if src_mod == mname or src_mod not in trees or f.attr in known.get(src_mod, set()):
+                continue
+            fn = next((st for st in trees[src_mod].body if isinstance(st, ast.FunctionDef) and st.name == f.attr), None)
+            if fn is None or fn.decorator_list or _has_yield(fn) or fn.args.vararg or fn.args.kwarg or fn.args.kwonlyargs or fn.args.posonlyargs:
+                continue
+            new_name = "_x_%s_%s" % (src_mod, fn.name)
+            if new_name not in copies:
+                local = set(a.arg for a in fn.args.args)
+                for n in ast.walk(fn):
+                    if isinstance(n, ast.Name) and isinstance(n.ctx, (ast.Store, ast.Del)):
+                        local.add(n.id)
+                    elif isinstance(n, ast.ExceptHandler) and n.name:
+                        local.add(n.name)
+                cp = copy.deepcopy(fn)
+                cp.name = new_name
+                cp.body = [_Qualify(_top_level_bindings(trees[src_mod]), f.value.id, local).visit(st) for st in cp.body]
+                cp.args.defaults = [_Qualify(_top_level_bindings(trees[src_mod]), f.value.id, set()).visit(d) for d in cp.args.defaults]
+                ast.fix_missing_locations(cp)
+                copies[new_name] = cp
+            call.func = ast.copy_location(ast.Name(id=new_name, ctx=ast.Load()), f)
+        if copies:
+            tree.body.extend(copies.values())
+            done[mname] = sorted(copies)
+    return done
+
+
 def inline_module(module_name, tree):
     """Expand new same-module helpers in `tree` (in place).  -> dict(expanded=..., removed=...) for evidence."""
     deselect_module(tree)
